@@ -133,7 +133,8 @@ def build_driver():
             if rc != 0:
                 raise RuntimeError("extraction failed:\n" + (out + err)[-3000:])
         drv = DRIVER_BIN
-        srcs = [os.path.join(DRIVER_DIR, f) for f in ("model.ml", "model.mli", "sx.ml", "driver.ml")]
+        srcs = [os.path.join(DRIVER_DIR, f) for f in os.listdir(DRIVER_DIR)
+                if f.endswith((".ml", ".mli", ".sh")) and f != "dispatch.ml"]
         if not os.path.exists(drv) or any(os.path.getmtime(s) > os.path.getmtime(drv) for s in srcs):
             rc, out, err = run_cmd(["sh", "build.sh"], cwd=DRIVER_DIR, timeout=600)
             if rc != 0:
